@@ -218,6 +218,17 @@ def oracle_c02(case, tb, rec, out):
     for p in res["procs"]:
         spawns[p["task"]] = spawns.get(p["task"], 0) + 1
     W = lambda **kw: witness(case, rec, kw)
+    if case.get("expect_reject"):
+        # a definition that must be rejected (C14): whatever happens, no task may run more than once,
+        # and if it was rejected nothing may have run at all
+        out["reach"]["c02_invalid_definition_runs"] = out["reach"].get("c02_invalid_definition_runs", 0) + 1
+        for x, n in spawns.items():
+            if n > 1:
+                out["violations"].append({"key": "C02:task-executed-more-than-once", "msg": "%s was spawned %d times (its dependent lists it twice under two spellings)" % (x, n), "witness": W()})
+                return
+        if res["result"].get("exit") not in (0, None) and spawns and "more than once" in schedsim.stdout_text(res["log"], "stderr"):
+            out["violations"].append({"key": "C02:task-executed-although-definition-rejected", "msg": "definition rejected but %s ran" % sorted(spawns), "witness": W()})
+        return
     out["reach"]["c02_runs"] = out["reach"].get("c02_runs", 0) + 1
     for x, n in spawns.items():
         out["reach"]["c02_spawn_checks"] = out["reach"].get("c02_spawn_checks", 0) + 1
@@ -553,6 +564,21 @@ def gen_cases(seed, n, focus, strategies=None, max_tasks=8):
     for name, tasks, target in fams:
         for rep in range(2 if n < 2000 else 6):
             cases.append({"family": name, "tasks": gen.dump(tasks), "history": mk_history(rng, tasks, target, focus, strategies)})
+    if focus in ("deps", "cache"):
+        for rep in range(6 if n < 2000 else 40):
+            # the same dependency listed twice under two spellings: must be rejected, nothing may run
+            base = rng.choice(["a", "lib"])
+            pk = "" if base == "a" else "lib"
+            d = gen.mk_task(pk, "prep", rng.choice(["run_command", "run_experiment"]), par=rng.random() < 0.5)
+            other = gen.mk_task("", "o1", "run_command", par=rng.random() < 0.5)
+            t = gen.mk_task(pk, "main", rng.choice(["run_command", "run_experiment", "group"]), [d["id"], other["id"], d["id"]], par=rng.random() < 0.5)
+            t["dep_strs"] = [":prep", other["id"], d["id"]]
+            rng.shuffle(t["dep_strs"])
+            t["deps"] = [d["id"] if x in (":prep", d["id"]) else other["id"] for x in t["dep_strs"]]
+            hist = mk_history(rng, [d, other, t], t["id"], "deps", strategies)[-1:]
+            hist[0]["target"] = t["id"]
+            hist[0]["script"] = {}
+            cases.append({"family": "alias-duplicate-dependency", "tasks": gen.dump([d, other, t]), "history": hist, "expect_reject": True})
     while len(cases) < n:
         r = rng.random()
         if focus == "wide":
